@@ -146,12 +146,83 @@ def shard_e2e(arg):
     return st
 
 
+def shard_large(arg):
+    """boards beyond the exhaustive scope: constructed patterns (border-rooted diagonal zig-zag chains
+    plus isolated cells) decided on the grid encoding through one Query per shape"""
+    seed, shapes, n = arg
+    st = Stats()
+    from cspuz import Solver
+    from hypothesis import strategies as hs
+
+    for (h, w) in shapes:
+        s = Solver()
+        arr = s.bool_array((h, w))
+        case0 = dict(grid=[h, w], segmenting=True, form="grid")
+        try:
+            post(case0, s, arr)
+        except Exception as e:
+            st.fail(Failure("posting-raises|%s|%s" % (tag(case0), repo_frame_sig(e)), observed=str(e)[:150]),
+                    case0, "c08.large")
+            continue
+        q = encq.Query(s)
+        ids = [v.id for v in arr]
+        edges = graphref.grid_edges(h, w)
+
+        @hs.composite
+        def pattern(draw):
+            act = set()
+
+            def ok(c):
+                y, x = c
+                return (0 <= y < h and 0 <= x < w and c not in act and
+                        not any(p in act for p in ((y - 1, x), (y + 1, x), (y, x - 1), (y, x + 1))))
+
+            for _ in range(draw(hs.integers(1, 3))):
+                # a chain starting on the border and zig-zagging along diagonals
+                side = draw(hs.integers(0, 3))
+                cur = {0: (0, draw(hs.integers(0, w - 1))), 1: (h - 1, draw(hs.integers(0, w - 1))),
+                       2: (draw(hs.integers(0, h - 1)), 0), 3: (draw(hs.integers(0, h - 1)), w - 1)}[side]
+                if not ok(cur):
+                    continue
+                act.add(cur)
+                for _ in range(draw(hs.integers(0, h + w))):
+                    dirs = [(cur[0] + dy, cur[1] + dx) for dy in (-1, 1) for dx in (-1, 1)]
+                    dirs = [c for c in dirs if ok(c)]
+                    if not dirs:
+                        break
+                    cur = dirs[draw(hs.integers(0, len(dirs) - 1))]
+                    act.add(cur)
+            for _ in range(draw(hs.integers(0, 3))):
+                c = (draw(hs.integers(0, h - 1)), draw(hs.integers(0, w - 1)))
+                if ok(c) or draw(hs.integers(0, 5)) == 0:
+                    act.add(c)
+            return sorted(list(c) for c in act)
+
+        def body(cells):
+            act = {tuple(c) for c in cells}
+            pat = [(y, x) in act for y in range(h) for x in range(w)]
+            want = reference(h * w, edges, pat, True)
+            got = q.admits(ids, pat)
+            case = dict(case0, pattern=[int(x) for x in pat])
+            st.case(canon=case, nontrivial=len(act) >= 2, classes=["large-board", "large:%dx%d" % (h, w),
+                                                                     "large:" + ("valid" if want else "invalid")],
+                    sample=case if len(act) >= 4 else None)
+            if got != want:
+                raise Failure(("admits-invalid|" if got else "rejects-valid|") + tag(case0) + "|large-board",
+                              observed=got, expected=want)
+
+        hyp_search(st, pattern(), body, seed=seed + h * 10 + w, max_examples=n, check="c08.large")
+    return st
+
+
 def run(ctx):
     ctx.rule = (
         "every labelled simple graph on 1..4 (thorough 5) vertices, Hypothesis-drawn multigraphs up to 7 "
         "(8) vertices, every grid shape with h*w <= 12 (16) incl. 1xN and Nx1 in three forms (specialised "
         "grid encoding, explicit-graph form on the reference grid graph, definition); ALL 2^n patterns "
-        "decided on the posted program by an independent solver; plus pinned-pattern find_answer runs. "
+        "decided on the posted program by an independent solver; plus pinned-pattern find_answer runs; plus, "
+        "beyond the exhaustive scope, boards 4x6 .. 7x5 / 4x9 (thorough up to 8x8) with constructed patterns "
+        "(border-rooted diagonal zig-zag chains and isolated cells) decided on the grid encoding. "
         "non-trivial = >= 2 active vertices, none adjacent; distinct by construction / case hash")
     ctx.assumptions = ["an empty set of inactive vertices counts as connected (as in C04)"]
     quick = ctx.quick()
@@ -175,7 +246,12 @@ def run(ctx):
         ctx.stats.merge(r)
     for r in pmap(shard_e2e, [(ctx.seed * 1000 + 30 + i, 80 if quick else 1500) for i in range(8 if quick else 16)]):
         ctx.stats.merge(r)
+    big = [(4, 6), (6, 4), (5, 5), (4, 7), (5, 7), (6, 6), (7, 5), (4, 9)] if quick else \
+        [(4, 6), (6, 4), (5, 5), (4, 7), (7, 4), (5, 7), (7, 5), (6, 6), (4, 9), (9, 4), (7, 7), (6, 8), (8, 8)]
+    for r in pmap(shard_large, [(ctx.seed * 1000 + 70 + i, [sh], 160 if quick else 1500) for i, sh in enumerate(big)]):
+        ctx.stats.merge(r)
     cl = ctx.stats.classes
+    ctx.floor("large-board patterns that are valid", cl["large:valid"], 100)
     ctx.floor("patterns on single-row/column grids", cl["single-row-or-column"], 5000)
     ctx.floor("e2e cases", cl["e2e"], 300)
 
